@@ -9,7 +9,7 @@
  *          s<a>                  two pieces (a, N-a), 0<a<N
  *          r<k>                  like u<k>, but every vorbis_analysis_buffer() call asks for 1024 samples and only k<=1024 are then written (encoder_example style)
  *          c<a>,<b>,...          cyclic schedule of piece sizes (each >0)
- *   sig  : sil | dc | sine | noise | fsn (full-scale LCG noise, 0.95) | mtone (loud 7-tone mix, peak 0.95) | imp<p> (one 0.9 impulse at sample p) | trn<p> (impulse every p samples)
+ *   sig  : sil | dc | sine | noise | fsn (full-scale LCG noise, 0.95) | mtone (loud 7-tone mix, peak 0.95) | qtone (0.01-amplitude 440 Hz tone) | ntail[<k>] (0.6 LCG noise for k samples, default rate/2, then the quiet tone) | imp<p> (one 0.9 impulse at sample p) | trn<p> (impulse every p samples)
  *   lay  : string over {n,f,2..9}: page layouts built from the same packets, each decoded separately:
  *          n = ogg_stream_pageout (what encoder_example does), f = ogg_stream_flush after every packet, k = flush after every k packets
  * The case encodes N samples per channel with the REAL encoder in-process (vorbis_analysis_buffer / _wrote in the given
@@ -18,7 +18,7 @@
  *   V: vorbisfile, seekable open on the in-memory bytes (ov_pcm_total, read-through)
  *   S: vorbisfile, non-seekable open (read-through)
  * Ground truth is the construction: N.
- * output: <idx> ok pk=<audio packets> lg=<long blocks> sh=<short blocks> sal=<short blocks that follow a long block> pg=<pages of first layout> by=<bytes of first layout> bs=<short>/<long> ab=<audio packet bytes> rfull=<packets after which the hard-max reservoir was within 64 bits of full>
+ * output: <idx> ok pk=<audio packets> lg=<long blocks> sh=<short blocks> sal=<short blocks that follow a long block> pg=<pages of first layout> by=<bytes of first layout> bs=<short>/<long> ab=<audio packet bytes> rfull=<packets after which the hard-max reservoir was within 64 bits of full> top/bot=<managed packets taken from the highest / lowest packet blob> (statistics only)
  *         <idx> bad:<named predicate>:<layout>:<observed>!=<expected>... */
 #include "common.h"
 #include <math.h>
@@ -125,7 +125,7 @@ int main(int argc,char **argv){
     long idx,rate,N; int ch; char mode[64],chunk[256],sig[64],lay[16]; char res[RESN]; struct itimerval it;
     long sched[64]; int nsched=0,cyc=0; long sigp=0; int sigk;
     vorbis_info vi; vorbis_comment vc; vorbis_dsp_state vd; vorbis_block vb; ogg_stream_state oss[8]; int nlay,li,inpage[8]; ogg_page og; ogg_packet op;
-    bytebuf bb[8]; int ret,eos=0,wrote0=0,vdinit=0; long done=0,piece=0,npk=0,lastgp=-1,lastpk_gp=-1,eos_count=0,eos_at=-1,nlong=0,nshort=0,sal=0,prevbs=-1,bs0,bs1,nempty=0,totbytes=0,rfull=0;
+    bytebuf bb[8]; int ret,eos=0,wrote0=0,vdinit=0; long done=0,piece=0,npk=0,lastgp=-1,lastpk_gp=-1,eos_count=0,eos_at=-1,nlong=0,nshort=0,sal=0,prevbs=-1,bs0,bs1,nempty=0,totbytes=0,rfull=0,topblob=0,botblob=0;
     unsigned lcg;
     res[0]=0;
     if(sscanf(line,"%ld %ld %d %63s %ld %255s %63s %15s",&idx,&rate,&ch,mode,&N,chunk,sig,lay)!=8){ if(sscanf(line,"%ld",&idx)==1){ printf("%ld BADCASE\n",idx); fflush(stdout);} continue; }
@@ -137,7 +137,7 @@ int main(int argc,char **argv){
     { int k,okc=nsched>0; for(k=0;k<nsched;k++)if(sched[k]<=0)okc=0; if(N>0&&!okc){ printf("%ld BADCASE chunk\n",idx); fflush(stdout); continue; } }
     nlay=(int)strlen(lay); if(nlay<1||nlay>8||strspn(lay,"nf23456789")!=(size_t)nlay){ printf("%ld BADCASE lay\n",idx); fflush(stdout); continue; }
     memset(bb,0,sizeof(bb)); memset(inpage,0,sizeof(inpage));
-    if(!strcmp(sig,"sil"))sigk=0; else if(!strcmp(sig,"dc"))sigk=1; else if(!strcmp(sig,"sine"))sigk=2; else if(!strcmp(sig,"noise"))sigk=3; else if(!strcmp(sig,"fsn"))sigk=6; else if(!strcmp(sig,"mtone"))sigk=7;
+    if(!strcmp(sig,"sil"))sigk=0; else if(!strcmp(sig,"dc"))sigk=1; else if(!strcmp(sig,"sine"))sigk=2; else if(!strcmp(sig,"noise"))sigk=3; else if(!strcmp(sig,"fsn"))sigk=6; else if(!strcmp(sig,"mtone"))sigk=7; else if(!strcmp(sig,"qtone"))sigk=8; else if(!strncmp(sig,"ntail",5)){ sigk=9; sigp=atol(sig+5); if(sigp<=0)sigp=rate/2; }
     else if(!strncmp(sig,"imp",3)){ sigk=4; sigp=atol(sig+3); } else if(!strncmp(sig,"trn",3)){ sigk=5; sigp=atol(sig+3); if(sigp<=0)sigp=1; }
     else { printf("%ld BADCASE sig\n",idx); fflush(stdout); continue; }
     memset(&it,0,sizeof(it)); it.it_value.tv_sec=timeout; setitimer(ITIMER_VIRTUAL,&it,NULL);
@@ -190,6 +190,8 @@ int main(int argc,char **argv){
               case 3: lcg=lcg*1103515245u+12345u; v=0.4f*(((lcg>>8)&0xffff)/32768.f-1.f); break;
               case 4: v=(t==sigp)?0.9f:0.f; break;
               case 5: v=(t%sigp==sigp/2)?0.9f:0.f; break;
+              case 8: v=0.01f*sinf(2*M_PI*(440.0+110.0*k)*t/rate); break;
+              case 9: if(t<sigp){ lcg=lcg*1103515245u+12345u; v=0.6f*(((lcg>>8)&0xffff)/32768.f-1.f); } else v=0.01f*sinf(2*M_PI*(440.0+110.0*k)*t/rate); break;
               case 6: lcg=lcg*1103515245u+12345u; v=0.95f*(((lcg>>8)&0xffff)/32768.f-1.f); break;
               case 7: { static const double fr[7]={0.011,0.0237,0.0519,0.0933,0.1671,0.2713,0.3907}; int q; double a=0; for(q=0;q<7;q++)a+=sin(2*M_PI*fr[q]*(1.0+0.013*k)*t+q); v=(float)(0.95*a/7.0); } break;
               }
@@ -210,6 +212,7 @@ int main(int argc,char **argv){
             totbytes+=op.bytes;
             if(mode[0]=='m'||mode[0]=='h'){ /* statistics: how often the hard-maximum reservoir was (nearly) full after this packet */
               private_state *ps=(private_state*)vd.backend_state; codec_setup_info *csi=(codec_setup_info*)vi.codec_setup;
+              if(ps->bms.managed){ if(ps->bms.choice==PACKETBLOBS-1)topblob++; else if(ps->bms.choice==0)botblob++; }
               if(ps->bms.managed&&ps->bms.max_bitsper>0&&csi->bi.reservoir_bits>0&&ps->bms.minmax_reservoir>=csi->bi.reservoir_bits-64)rfull++;
             }
             if((long)op.granulepos<lastgp){ FAIL("bad:enc_granule_decreased:packet%ld:%ld<%ld:N%ld",npk,(long)op.granulepos,lastgp,N); break; }
@@ -246,7 +249,7 @@ int main(int argc,char **argv){
     vorbis_comment_clear(&vc); vorbis_info_clear(&vi);
     memset(&it,0,sizeof(it)); setitimer(ITIMER_VIRTUAL,&it,NULL);
     if(!res[0])snprintf(res,RESN,"ok");
-    printf("%ld %s pk=%ld lg=%ld sh=%ld sal=%ld pg=%ld by=%ld bs=%ld/%ld ab=%ld rfull=%ld\n",idx,res,npk,nlong,nshort,sal,bb[0].pages,bb[0].len,bs0,bs1,totbytes,rfull); fflush(stdout);
+    printf("%ld %s pk=%ld lg=%ld sh=%ld sal=%ld pg=%ld by=%ld bs=%ld/%ld ab=%ld rfull=%ld top=%ld bot=%ld\n",idx,res,npk,nlong,nshort,sal,bb[0].pages,bb[0].len,bs0,bs1,totbytes,rfull,topblob,botblob); fflush(stdout);
     for(li=0;li<nlay;li++)__real_free(bb[li].d);
   }
   return 0;
